@@ -56,10 +56,11 @@ macro_rules! arr {
 #[cfg(feature = "alloc")]
 #[macro_export]
 macro_rules! box_arr {
-    ($($x:expr),* $(,)*) => ({
-        // deduce length based on a ZST array of units
-        $crate::GenericArray::__from_vec_helper([$($crate::box_arr_helper!(@unit $x)),*], $crate::alloc::vec![$($x),*])
-    });
+    ($($x:expr),* $(,)*) => (
+        // Box a native array and reinterpret it, so the length is deduced from the same element
+        // list that is evaluated (the compiler removes `#[cfg]`-disabled elements from it).
+        $crate::GenericArray::__from_boxed_array($crate::alloc::boxed::Box::new([$($x),*]))
+    );
     ($x:expr; $N:ty) => ( $crate::GenericArray::<_, $N>::try_from_vec($crate::alloc::vec![$x; <$N as $crate::typenum::Unsigned>::USIZE]).unwrap() );
     ($x:expr; $n:expr) => ({
         const __LEN: usize = $n;
@@ -83,6 +84,22 @@ mod alloc_helper {
             typenum::Const<U>: IntoArrayLength<ArrayLength = N>,
         {
             unsafe { GenericArray::try_from_vec(vec).unwrap_unchecked() }
+        }
+
+        #[doc(hidden)]
+        #[inline(always)]
+        pub fn __from_boxed_array<const U: usize>(
+            array: alloc::boxed::Box<[T; U]>,
+        ) -> alloc::boxed::Box<GenericArray<T, N>>
+        where
+            typenum::Const<U>: IntoArrayLength<ArrayLength = N>,
+        {
+            // SAFETY: `GenericArray<T, N>` has the same layout as `[T; U]` when `N == U`
+            unsafe {
+                alloc::boxed::Box::from_raw(
+                    alloc::boxed::Box::into_raw(array) as *mut GenericArray<T, N>
+                )
+            }
         }
     }
 }
